@@ -237,9 +237,24 @@ func runFCCarry(c *core.Ctx) {
 				return true
 			}
 			if sel, ok := an.Unparen(x.Lhs[0]).(*ast.SelectorExpr); ok && sel.Sel.Name == "count" {
-				if ix, ok := an.Unparen(sel.X).(*ast.IndexExpr); ok && an.ObjOf(info, ix.Index) == idx {
+				loc := an.Unparen(sel.X)
+				// `rec := &stack[idx]; rec.count = ...` stores into stack[idx] as well
+				if id, isId := loc.(*ast.Ident); isId {
+					if d := an.SingleDef(info, fn.Body(), info.ObjectOf(id)); d != nil {
+						if u, isAddr := an.Unparen(d).(*ast.UnaryExpr); isAddr && u.Op == token.AND {
+							loc = an.Unparen(u.X)
+						}
+					}
+				}
+				if ix, ok := loc.(*ast.IndexExpr); ok && an.ObjOf(info, ix.Index) == idx {
 					stored = true
 				}
+			}
+			if x.Tok == token.REM_ASSIGN {
+				mod = true
+			}
+			if x.Tok == token.QUO_ASSIGN && carry != nil && an.ObjOf(info, x.Lhs[0]) == carry {
+				carryDiv = true
 			}
 			if be, ok := an.Unparen(x.Rhs[0]).(*ast.BinaryExpr); ok {
 				if be.Op == token.REM {
@@ -247,6 +262,10 @@ func runFCCarry(c *core.Ctx) {
 				}
 				if be.Op == token.QUO && carry != nil && an.ObjOf(info, x.Lhs[0]) == carry {
 					carryDiv = true
+				}
+				// `count := digit + carry`
+				if be.Op == token.ADD && carry != nil && (an.ObjOf(info, be.X) == carry || an.ObjOf(info, be.Y) == carry) {
+					carryAdd = true
 				}
 			}
 			if x.Tok == token.ADD_ASSIGN && carry != nil && an.ObjOf(info, x.Rhs[0]) == carry {
